@@ -70,7 +70,7 @@ impl Rec {
     }
 
     /// Insert the `query_instance` calls (made through `&self`) at their positions.
-    pub fn finish(mut self) -> Vec<AbsEv> {
+    pub fn finish(self) -> Vec<AbsEv> {
         let qs = self.queries.take();
         if qs.is_empty() {
             return self.evs;
